@@ -87,6 +87,13 @@ impl TryFrom<String> for TimeZone {
 
 impl From<TimeZone> for FixedOffset {
     fn from(tz: TimeZone) -> Self {
+        #[cfg(feature = "verif-hooks")]
+        if let Some(now) = crate::verif::now_override() {
+            return match tz {
+                TimeZone::Local => *now.with_timezone(&Local).offset(),
+                TimeZone::Named(tz) => now.with_timezone(&tz).offset().fix(),
+            };
+        }
         match tz {
             TimeZone::Local => *Utc::now().with_timezone(&Local).offset(),
             TimeZone::Named(tz) => Utc::now().with_timezone(&tz).offset().fix(),
